@@ -525,8 +525,8 @@ End SatInTable.
 (* wf (Theorem A's well-formedness) contains the threshold bounds kwf needs *)
 Lemma wf_kwf e ke : forall m, wf e ke m -> kwf m.
 Proof.
-  induction m using ms_ind'; cbn [wf kwf]; try tauto.
-  intros [Hk [_ Hw]]. split; [exact Hk|]. induction H as [|x r Hx Hr IH]; [exact I|].
+  induction m using ms_ind'; cbn [wf kwf]; try tauto; try (intros; exact I).
+  intros [Hk [_ Hw]]. split; [exact Hk|]. clear Hk. induction H as [|x r Hx Hr IH]; [exact I|].
   destruct Hw as [H1 H2]. split; [apply Hx, H1 | apply IH, H2].
 Qed.
 
